@@ -1828,8 +1828,25 @@ class FortranFileReader(FortranReaderBase):
             self.source_only = source_only[:]
 
     def __del__(self):
-        if self._close_on_destruction:
+        if getattr(self, "_close_on_destruction", False):
             self.file.close()
+
+    def __getstate__(self):
+        """
+        The open file is not part of a copy or pickle of a reader: items of
+        a parse tree refer to their reader, so copying or pickling the tree
+        of a file would otherwise fail. A copied reader has no source left
+        to read from and does not own (or close) the original's file.
+
+        :returns: the state of this reader without its file object.
+        :rtype: dict
+        """
+        state = self.__dict__.copy()
+        if state.get("source") is state.get("file"):
+            state["source"] = iter(())
+        state["file"] = None
+        state["_close_on_destruction"] = False
+        return state
 
     def close_source(self):
         self.file.close()
